@@ -234,6 +234,50 @@ pub fn run(prop: &'static str, tier: &str) -> i32 {
         }
         all.merge(acc);
     }
+    // ---- a build that fails in the signing step (key material the signer refuses) must leave the builder as
+    //      it was: the next build with the good key carries the defaults and everything the caller supplied
+    {
+        let mut acc = Acc::default();
+        for p in Proto::PUBLIC {
+            let key = crate::domains::key_pool(p)[0].clone();
+            let t0 = clks[0];
+            crate::adapter::set_clock(Some(time::OffsetDateTime::from_unix_timestamp_nanos(t0).unwrap()));
+            let ops = vec![
+                crate::adapter::BOp::Claim(crate::adapter::ClaimSpec::auto("sub", json!("alice"))),
+                crate::adapter::BOp::Claim(crate::adapter::ClaimSpec::auto("role", json!("admin"))),
+                crate::adapter::BOp::BuildBadKey,
+                crate::adapter::BOp::Build,
+                crate::adapter::BOp::BuildBadKey,
+                crate::adapter::BOp::Build,
+            ];
+            let (ev, _) = crate::adapter::with_rng_script(vec![], || crate::adapter::build_history(p, crate::adapter::Layer::Prelude, &key.sk, &ops));
+            crate::adapter::freeze_default_clock();
+            acc.executions += 1;
+            let builds: Vec<&crate::adapter::BEvent> = ev.iter().filter(|e| matches!(e, crate::adapter::BEvent::Built(_))).collect();
+            let mut problem: Option<String> = None;
+            for (i, b) in builds.iter().enumerate() {
+                let crate::adapter::BEvent::Built(out) = b else { continue };
+                if i % 2 == 0 {
+                    if out.is_ok() {
+                        problem = Some(format!("build #{} with key material the signer must refuse produced a token", i + 1));
+                    }
+                } else {
+                    let payload = out.ok().and_then(|t| crate::adapter::core_present(p, &key.pk, t, None, None).ok().cloned());
+                    let v: Value = payload.as_deref().and_then(|s| serde_json::from_str(s).ok()).unwrap_or(Value::Null);
+                    let inst = |k: &str| v[k].as_str().and_then(crate::rfc3339::parse).map(|(_, t)| t);
+                    let ok = v["sub"] == json!("alice") && v["role"] == json!("admin") && inst("iat") == Some(t0) && inst("nbf") == Some(t0) && inst("exp") == Some(t0 + 3600 * 1_000_000_000);
+                    if !ok {
+                        problem = Some(format!("build #{} (good key, after a build that failed in the signing step): payload {} - expected sub, role and the default exp / iat / nbf", i + 1, v));
+                    }
+                }
+            }
+            match problem {
+                None => acc.controls_ok += 1,
+                Some(w) => acc.violate(format!("{}|{}|build-after-failed-build", prop, p.name()), w, json!({"near_miss": ["failed-build", p.name()]})),
+            }
+        }
+        all.merge(acc);
+    }
     // ---- pairs of keys that differ by case, white space or Unicode normalisation are different keys
     if prop == "C17" {
         let near: [&str; 9] = ["role", "Role", "ROLE", "role ", " role", "role\n", "r\u{00f4}le", "ro\u{0302}le", "rol"];
